@@ -1008,7 +1008,7 @@ where
     ```
     */
     pub fn number_of_edges(&self) -> usize {
-        self.edges.len()
+        self.edges.values().map(|edges| edges.len()).sum()
     }
 
     /**
